@@ -221,6 +221,95 @@ pub(crate) fn yield_point(name: &'static str) {
     }
 }
 
+/// `Arc` with a scheduling point before every operation that reads or changes the reference
+/// count, so that a controlled scheduler can interleave threads between a count read and a count
+/// change (`std::sync::Arc` has no such points). Used by `utils::counter` under the verif cfg only.
+pub struct VArc<T: ?Sized>(std::sync::Arc<T>);
+
+#[allow(missing_docs)]
+impl<T> VArc<T> {
+    pub fn new(value: T) -> Self {
+        VArc(std::sync::Arc::new(value))
+    }
+}
+
+#[allow(missing_docs)]
+impl<T: ?Sized> VArc<T> {
+    pub fn strong_count(this: &Self) -> usize {
+        yield_point("arc.strong_count");
+        std::sync::Arc::strong_count(&this.0)
+    }
+
+    pub fn weak_count(this: &Self) -> usize {
+        yield_point("arc.weak_count");
+        std::sync::Arc::weak_count(&this.0)
+    }
+
+    pub fn ptr_eq(this: &Self, other: &Self) -> bool {
+        std::sync::Arc::ptr_eq(&this.0, &other.0)
+    }
+
+    pub fn as_ptr(this: &Self) -> *const T {
+        std::sync::Arc::as_ptr(&this.0)
+    }
+
+    pub fn get_mut(this: &mut Self) -> Option<&mut T> {
+        yield_point("arc.get_mut");
+        std::sync::Arc::get_mut(&mut this.0)
+    }
+
+    pub fn downgrade(this: &Self) -> std::sync::Weak<T> {
+        yield_point("arc.downgrade");
+        std::sync::Arc::downgrade(&this.0)
+    }
+}
+
+impl<T: ?Sized> Clone for VArc<T> {
+    fn clone(&self) -> Self {
+        yield_point("arc.clone");
+        VArc(self.0.clone())
+    }
+}
+
+impl<T: ?Sized> Drop for VArc<T> {
+    fn drop(&mut self) {
+        // the count is released right after this returns
+        yield_point("arc.drop");
+    }
+}
+
+impl<T: ?Sized> std::ops::Deref for VArc<T> {
+    type Target = T;
+
+    fn deref(&self) -> &T {
+        &self.0
+    }
+}
+
+impl<T: ?Sized> AsRef<T> for VArc<T> {
+    fn as_ref(&self) -> &T {
+        &self.0
+    }
+}
+
+impl<T: ?Sized + std::fmt::Debug> std::fmt::Debug for VArc<T> {
+    fn fmt(&self, f: &mut std::fmt::Formatter<'_>) -> std::fmt::Result {
+        self.0.fmt(f)
+    }
+}
+
+impl<T: Default> Default for VArc<T> {
+    fn default() -> Self {
+        VArc::new(T::default())
+    }
+}
+
+impl<T> From<T> for VArc<T> {
+    fn from(value: T) -> Self {
+        VArc::new(value)
+    }
+}
+
 thread_local! {
     static INLINE_BLOCKING: std::cell::Cell<bool> = const { std::cell::Cell::new(false) };
 }
